@@ -22,6 +22,9 @@ type c16Item struct {
 	Kind string `json:"k"` // orig, flip, epoch, seq, wrongkey, garbage
 	Pos  int    `json:"p,omitempty"`
 	Mask byte   `json:"m,omitempty"`
+	// Join (receiver reading with Read only): this item's record travels in one datagram with the next
+	// item's, in front of it
+	Join bool `json:"j,omitempty"`
 }
 
 type c16Case struct {
@@ -89,6 +92,12 @@ func c16Deliver(c c16Case, withForgeries bool) (got [][]byte, seqs []uint64, fir
 		capture = false
 		// wrong-key forgeries: sealed with the reference under the *server's* write key
 		keys, kerr := refKeysOfTapsD(sim, cc)
+		var carry []byte
+		defer func() {
+			if carry != nil {
+				sim.inject(1, sim.ends[0].addr, carry, 0)
+			}
+		}()
 		for _, it := range c.Sched {
 			if it.Idx >= len(stash) {
 				continue
@@ -120,6 +129,12 @@ func c16Deliver(c c16Case, withForgeries bool) (got [][]byte, seqs []uint64, fir
 			case "garbage":
 				d = append([]byte{23, 1, 1, 0, 1, 0, 0, 0, 0, 9, byte(it.Pos), 0, 40}, bytes.Repeat([]byte{byte(it.Mask)}, 40)...)
 			}
+			if it.Join && !c.ReadFrom && !c.Mixed && len(carry)+len(d) < 1000 {
+				carry = append(carry, d...)
+				continue
+			}
+			d = append(carry, d...)
+			carry = nil
 			sim.inject(1, sim.ends[0].addr, d, 0)
 		}
 		return nil
@@ -285,7 +300,7 @@ func c16Check(c c16Case) (sig, msg string, nontrivial bool) {
 }
 
 func TestVF_C16_Conn(t *testing.T) {
-	rec := vfRec("C16", "C16b-connection", "established connection; the sender emits N unique payloads which the harness holds back and then delivers according to a generated schedule of originals, duplicates, late replays, reorderings, body bit flips, altered epoch / sequence headers, records sealed under the wrong direction's key and garbage records; receiver through ReadFrom, through Read, and mixed (short Read, ReadFrom, rest through Read); window sizes 0 (default), 32, 64, 128 and the odd values 1, 8, 31, 33, 65, -5; both cipher modes; the sender's sequence number starting at 1, 250, 65530, 2^32-5, 2^32+7, 2^40 or 2^48-300; oracle: delivered subset of sent, at most once, forgeries never delivered, fresh genuine records within the guaranteed window delivered, same deliveries with and without the forgeries; non-trivial = schedule with a duplicate, a replay or a forgery; distinct = the case")
+	rec := vfRec("C16", "C16b-connection", "established connection; the sender emits N unique payloads which the harness holds back and then delivers according to a generated schedule of originals, duplicates, late replays, reorderings, body bit flips, altered epoch / sequence headers, records sealed under the wrong direction's key and garbage records, one record per datagram or (receiver reading with Read) two in one datagram; receiver through ReadFrom, through Read, and mixed (short Read, ReadFrom, rest through Read); window sizes 0 (default), 32, 64, 128 and the odd values 1, 8, 31, 33, 65, -5; both cipher modes; the sender's sequence number starting at 1, 250, 65530, 2^32-5, 2^32+7, 2^40 or 2^48-300; oracle: delivered subset of sent, at most once, forgeries never delivered, fresh genuine records within the guaranteed window delivered, same deliveries with and without the forgeries; non-trivial = schedule with a duplicate, a replay or a forgery; distinct = the case")
 	vfRapid(t, rec, "schedules", vfN(300, 6000), func(t *rapid.T) {
 		c := c16Case{Suite: rapid.SampledFrom([]uint16{ECC_SM4_GCM_SM3, ECC_SM4_CBC_SM3}).Draw(t, "suite"), Window: rapid.SampledFrom([]int{0, 32, 64, 128, 1, 8, 31, 33, 65, -5}).Draw(t, "window"),
 			N: rapid.SampledFrom([]int{3, 8, 40, 100}).Draw(t, "n"), ReadFrom: rapid.Bool().Draw(t, "readfrom"), Mixed: rapid.IntRange(0, 3).Draw(t, "mixed") == 0,
@@ -316,6 +331,7 @@ func TestVF_C16_Conn(t *testing.T) {
 			}
 			it.Pos = rapid.IntRange(0, 300).Draw(t, "pos")
 			it.Mask = byte(rapid.IntRange(1, 255).Draw(t, "mask"))
+			it.Join = rapid.IntRange(0, 5).Draw(t, "join") == 0
 			c.Sched = append(c.Sched, it)
 		}
 		sig, msg, nt := c16Check(c)
